@@ -38,8 +38,8 @@ def analyse_handle(cx):
         if base_local(du, t.args[0]) != h.inner:
             raise AnchorMissing("handle: read_until does not read the inner BufReader")
         h.buf_locals.add(base_local(du, t.args[2]))
-    h.from_slice = body.calls("serde_json::from_slice")
-    if len(h.from_slice) != 1: raise AnchorMissing("handle: expected one serde_json::from_slice, found %d" % len(h.from_slice))
+    h.from_slice = [t for t in body.calls() if not t.callee.indirect and "serde_json" in t.callee.path and t.callee.name in ("from_slice", "from_str", "from_reader")]
+    if len(h.from_slice) != 1: raise AnchorMissing("handle: expected one serde_json parser call (from_slice/from_str), found %d" % len(h.from_slice))
     h.from_slice = h.from_slice[0]
     h.dispatch = [t for t in body.calls("VarlinkService::call", "reply_interface_not_found")
                   if t.callee.resolved.endswith("VarlinkService::call") or t.callee.name == "reply_interface_not_found"]
